@@ -1,25 +1,5 @@
 From AG Require Import Base.Prelude Base.Res Base.Bytes Base.Mask Codec.Trg.
 
-Lemma rd_le_eq l a n : a + n <= lenN l -> rd_le l a n = Ok (le_val (subN l a n)).
-Proof.
-  intros H. unfold rd_le. rewrite slice_ok by lia. cbn [bind].
-  replace (a + n - a) with n by lia.
-  rewrite arr_ok by (apply subN_length; lia). reflexivity.
-Qed.
-
-Lemma rd_le_ok l a n : a + n <= lenN l -> bytes l ->
-  exists w, rd_le l a n = Ok w /\ w < 256 ^ n /\ le_enc (N.to_nat n) w = subN l a n.
-Proof.
-  intros H Hb. rewrite rd_le_eq by assumption. eexists; split; [reflexivity|].
-  assert (L : lenN (subN l a n) = n) by (apply subN_length; assumption).
-  split.
-  - rewrite <- L at 2. apply le_val_bound, bytes_subN. assumption.
-  - apply le_enc_val'; [apply bytes_subN; assumption|]. unfold lenN in L. lia.
-Qed.
-
-Lemma rd_le_total l a n : a + n <= lenN l -> rd_le l a n <> Panic.
-Proof. intros. rewrite rd_le_eq by assumption. discriminate. Qed.
-
 (* mask facts for 32-bit words *)
 Lemma m_hi4 x : N.land x 0xF0000000 = (x / 2^28) mod 2^4 * 2^28.
 Proof. replace 0xF0000000 with (2^32 - 2^28) by reflexivity. rewrite land_run by lia. reflexivity. Qed.
@@ -78,21 +58,7 @@ Proof. trg_masks. lia. Qed.
 Lemma w_lo28 w : N.land w 0xFFFFFFF = w mod 268435456.
 Proof. trg_masks. reflexivity. Qed.
 
-Lemma negb_eqb_false a b : negb (a =? b) = false -> a = b.
-Proof. destruct (N.eqb_spec a b); [auto|discriminate]. Qed.
-Lemma orb_false_both a b : a || b = false -> a = false /\ b = false.
-Proof. apply orb_false_iff. Qed.
 
-Ltac norm_hyps := repeat match goal with
-  | H : negb (_ =? _) = false |- _ => apply negb_eqb_false in H
-  | H : _ || _ = false |- _ => apply orb_false_both in H; destruct H
-  | H : (_ <? _) = false |- _ => apply N.ltb_ge in H
-  | H : (_ <=? _) = false |- _ => apply N.leb_gt in H
-  | H : (_ <? _) = true |- _ => apply N.ltb_lt in H
-  | H : (_ <=? _) = true |- _ => apply N.leb_le in H
-  | H : (_ =? _) = true |- _ => apply N.eqb_eq in H
-  | H : (_ =? _) = false |- _ => apply N.eqb_neq in H
-  end.
 
 Theorem trg_total_lemma l : bytes l -> trg_decode l <> Panic.
 Proof.
@@ -106,9 +72,6 @@ Proof.
   repeat (case_if; [discriminate|]). discriminate.
 Qed.
 
-Lemma subN_join {A} (l : list A) a n b m k : b = a + n -> k = n + m ->
-  subN l a n ++ subN l b m = subN l a k.
-Proof. intros -> ->. symmetry. apply subN_split. Qed.
 
 Lemma split80 (l : list N) : lenN l = 80 ->
   l = subN l 0 4 ++ subN l 4 4 ++ subN l 8 4 ++ subN l 12 4 ++ subN l 16 4 ++ subN l 20 4 ++
@@ -161,15 +124,7 @@ Proof.
     repeat match goal with |- _ ++ _ = _ ++ _ => f_equal end; try reflexivity; f_equal; lia.
 Qed.
 
-Lemma subN_last {A} (e : list A) a n : a = 0 -> n = lenN e -> subN e a n = e.
-Proof. intros -> ->. apply subN_all. reflexivity. Qed.
 
-Ltac len_lia := autorewrite with len; lia.
-(* read a field out of a right-nested concatenation e0 ++ e1 ++ ... *)
-Ltac sub_walk :=
-  first [ rewrite subN_app_hd by len_lia
-        | rewrite subN_last by len_lia
-        | rewrite subN_app_r by len_lia; sub_walk ].
 
 Lemma trg_encode_len f : lenN (trg_encode f) = 80.
 Proof. unfold trg_encode, e32. autorewrite with len. reflexivity. Qed.
